@@ -254,6 +254,11 @@ func (r *breader) readCode(c *Code) {
 		&c.CellCount,
 		&sz,
 	)
+	if r.err == nil && (c.UpvalueCount < 0 || c.RegCount < 0 || c.CellCount < 0) {
+		// These are used as sizes when the function is instantiated or called
+		r.err = errInvalidSize
+		return
+	}
 	if !r.checkCount(sz, 8) {
 		return
 	}
